@@ -16,7 +16,7 @@ RULE = ('(target, patch) pairs: random documents with nested objects, patches de
         'round trip from+patch = to (no null member in `to`), NULL patch exactly for equal objects, inputs unchanged up to member order, patch operand untouched, links healthy, '
         'ledger balanced; also keys differing only by case below the first level, numbers within compare_double tolerance with different integer '
         'views, raw / NaN / invalid-type nodes (robustness), patches nested beyond CJSON_CIRCULAR_LIMIT (failed recursion -> NULL); non-trivial = both operands present and at least one of them an object')
-ASSUMPTIONS = ['C locale (tolower)', 'hand-written value-level transliteration validated by this differential run',
+ASSUMPTIONS = ['C locale (tolower)', 'hand-written value-level transliteration validated by this differential run; for merge_patch a heap-level transliteration is proved to refine it (Properties_C18_Heap.v)',
                'allocation failures inside merge/generate are not modelled at this tier (C08 covers failure cleanliness of the primitives)',
                'python float arithmetic is IEEE binary64 (used by the verdict)']
 EPS = 2.220446049250313e-16
